@@ -10,11 +10,12 @@ RULE = ("Random ordered basis lists (spin with/without labels, SHO incl. shifted
         "(1..60 terms, duplicates, partially cancelling pairs, shared prefixes, explicit identities, interleaved "
         "same-site symbols, real/complex factors over six decades, optional offset); each case is built with all "
         "three algorithms and compared with the harness's dense sum of Kronecker products, then walked through "
-        "1..8 random adjacent swaps. Non-trivial: >= 3 distinct terms, some bond >= 2 and a site with >= 2 distinct "
+        "1..8 random adjacent swaps; every twelfth case has a multi-DoF site and the SAME term objects are also built in "
+        "the model that gives each of its DoFs a site of its own, then again in the first model. Non-trivial: >= 3 distinct terms, some bond >= 2 and a site with >= 2 distinct "
         "non-identity local operators; distinct by hash of (basis, sorted terms, offset).")
 ASSUMPTIONS = [
     "local matrices come from BasisSet.op_mat (their correctness is C16's business)",
-    "absolute tolerance, T = sum_k ||term_k||_F: graph algorithms 1e-12*T (exact up to rounding); QR 1e-9*sqrt(n+1)*sum_k (c_max/|c_k|)*||term_k||_F "
+    "absolute tolerance, T = sum_k ||term_k||_F: graph algorithms 1e-12*T (exact up to rounding); QR 1e-9*max(1,(L-1)/2)*sqrt(n+1)*sum_k (c_max/|c_k|)*||term_k||_F (L sites) "
     "because the QR variant by design drops coefficients below 1e-10*|r_00| irrespective of the operator norm they multiply; swap walks: (k+2) x the larger of the two",
     "prod(d) <= 1024 (quick: 512); the uint16/uint32 table limits (> 65535 primary operators) are out of reach",
     "complete cancellation of all terms is outside the property (no operator requested) and counted as refusal",
@@ -28,14 +29,15 @@ def plan(tier):
         return {"ncases": 320, "min_nontrivial": 80, "case_time_limit": 120,
                 "required_classes": ["one-term", "one-site", "offset", "complex-factor", "multi-dof-site", "swap-walk",
                                      "swap-walk:product-pair-then-overlapping-swap",
-                                     "duplicate-terms", "interleaved-same-site", "identical-duplicate-term", "units:tiny", "units:huge", "long-chain"],
-                "required_counters": {"oracle": 600, "swaps": 100}}
+                                     "duplicate-terms", "interleaved-same-site", "identical-duplicate-term", "units:tiny", "units:huge", "long-chain",
+                                     "regrouped-model"],
+                "required_counters": {"oracle": 600, "swaps": 100, "regrouped": 60}}
     return {"ncases": 15000, "min_nontrivial": 4500, "case_time_limit": 300,
             "required_classes": ["one-term", "one-site", "offset", "complex-factor", "multi-dof-site", "swap-walk",
                                      "swap-walk:product-pair-then-overlapping-swap",
                                  "duplicate-terms", "interleaved-same-site", "real-factor-complex-matrix", "identical-duplicate-term",
-                                 "units:tiny", "units:huge", "long-chain"],
-            "required_counters": {"oracle": 30000, "swaps": 9000}}
+                                 "units:tiny", "units:huge", "long-chain", "regrouped-model"],
+            "required_counters": {"oracle": 30000, "swaps": 9000, "regrouped": 3000}}
 
 
 def riffle(rng, siteops):
@@ -66,6 +68,14 @@ def build_case(ctx):
     if r > 0.96:
         gm = gen.long_chain(rng, 10, 10 if ctx.tier == "quick" else 11)
         ctx.cls("long-chain")
+    elif ctx.idx % 12 == 7:
+        # a site carrying several DoFs that can also be given one site each (see the regrouping stage of run_case)
+        for _ in range(40):
+            gm = gen.random_basis_list(rng, nsite=(2, 4), max_dim=cap, qn_mode="one",
+                                       kinds=["multivac", "multivac", "sho", "spin", "elec"])
+            if any(type(b).__name__ == "BasisMultiElectronVac" and len(b.dofs) >= 2 for b in gm.basis):
+                ctx.regroup = True
+                break
     else:
         gm = gen.random_basis_list(rng, nsite=nsite, max_dim=cap)
     if len(gm.basis) == 1:
@@ -89,6 +99,8 @@ def build_case(ctx):
     allow_complex = complex_factors or rng.random() < 0.25
     terms = gen.random_terms(rng, gm, nterms, allow_complex=allow_complex, complex_factors=complex_factors)
     ctx.pair = None
+    if not hasattr(ctx, "regroup"):
+        ctx.regroup = False
     if len(gm.basis) >= 3 and rng.random() < 0.12:
         # every term is the SAME product A_i B_{i+1} on two adjacent sites times something on the other sites: the operator
         # bonds left of, between and right of the pair have dimension one, the other bonds do not
@@ -187,7 +199,9 @@ def run_case(ctx):
     cmax = max(facs) if facs else 1.0
     T = sum(norms) + 1e-300
     S = sum(n * cmax / f for n, f in zip(norms, facs)) + 1e-300
-    tol_abs = {"Hopcroft-Karp": 1e-12 * T, "Hungarian": 1e-12 * T, "qr": 1e-9 * np.sqrt(len(facs) + 1) * S}
+    # every one of the L-1 decompositions of the QR variant makes a drop of that relative size of its own
+    nbond_fac = max(1.0, (len(basis) - 1) / 2)
+    tol_abs = {"Hopcroft-Karp": 1e-12 * T, "Hungarian": 1e-12 * T, "qr": 1e-9 * nbond_fac * np.sqrt(len(facs) + 1) * S}
     ctx.metrics["sum_term_norms"] = T
     dof2site = dense.dof_site_map(basis)
     any_complex_local = any(np.iscomplexobj(dense.local_matrix(basis[s], items))
@@ -233,6 +247,31 @@ def run_case(ctx):
     mpo0 = results.get("Hopcroft-Karp") or next(iter(results.values()), None)
     if mpo0 is None:
         return
+    # ---- the same term objects in a model that partitions the same DoFs into sites differently ---------
+    if getattr(ctx, "regroup", False):
+        from renormalizer.model import basis as ba
+        split_basis = []
+        for b in basis:
+            if isinstance(b, ba.BasisMultiElectronVac) and len(b.dofs) >= 2:
+                split_basis.extend(ba.BasisMultiElectronVac([d]) for d in b.dofs)
+            else:
+                split_basis.append(b)
+        dim2 = int(np.prod([b.nbas for b in split_basis]))
+        if dim2 <= 2048:
+            ctx.cls("regrouped-model")
+            ref2, norms2 = dense.op_dense(split_basis, nz_terms, offset, return_norms=True)
+            T2 = sum(norms2) + 1e-300
+            S2 = sum(n * cmax / f for n, f in zip(norms2, facs)) + 1e-300
+            tol2 = {"Hopcroft-Karp": 1e-12 * T2, "Hungarian": 1e-12 * T2, "qr": 1e-9 * max(1.0, (len(split_basis) - 1) / 2) * np.sqrt(len(facs) + 1) * S2}
+            for algo in ALGOS:
+                # one site per DoF, then again the original partition: nothing remembered from the other model may leak
+                for tag, bl, rf, tl in (("split", split_basis, ref2, tol2), ("merged-again", basis, ref, tol_abs)):
+                    m2 = ctx.lib(Mpo, Model(list(bl), []), list(terms), offset=Quantity(offset), algo=algo,
+                                 what=f"Mpo|regrouped|{tag}|{algo}")
+                    ctx.count("oracle")
+                    ctx.count("regrouped")
+                    ctx.close(m2.todense(), rf, tl[algo], f"dense-mismatch|regrouped-model|{tag}|{algo}", scale=1.0,
+                              sites=len(bl))
     # non-triviality
     distinct_terms = len(set((t.symbol, tuple(map(repr, t.dofs))) for t in nz_terms))
     site_ops = {}
